@@ -1,7 +1,8 @@
 /-
-  Proofs/RRuleEMinutelyBHM.lean — Proofs/RRuleMinutelyBHM.lean with BYEASTER (complement of D-C01d: offsets −80..250, visited days inside
-  1583..4099, no BYWEEKNO) instead of "no BYEASTER": the same refinement over the BY-filter abstraction of
-  Proofs/RRuleEFilter.lean.  The lemmas of Proofs/RRuleMinutelyBHM.lean that do not mention the argument class are used from there.
+  Proofs/RRuleEMinutelyBHM.lean — Proofs/RRuleMinutelyBHM.lean with BYEASTER (complement of D-C01d: offsets
+  −80..250, visited days inside 1583..4099, no BYWEEKNO) instead of "no BYEASTER": the same refinement over the
+  BY-filter abstraction of Proofs/RRuleEFilter.lean.  The lemmas of Proofs/RRuleMinutelyBHM.lean that do not
+  mention the argument class are used from there.
 -/
 import DateutilVerif.Proofs.RRuleEFilter
 import DateutilVerif.Proofs.RRuleMinutelyBHM
@@ -16,7 +17,7 @@ structure MinutelyBHMEArgs (a : Args) : Prop where
   freq : a.freq = 5
   interval : 1 ≤ a.interval
   valid : a.dtstart.Valid
-  weekno : WArg a
+  byweekno : a.byweekno = none
   easter : ∃ el, a.byeaster = some el ∧ el ≠ [] ∧ ∀ o ∈ el, -80 ≤ o ∧ o ≤ 250
   monthday_nz : ∀ x ∈ a.bymonthday.getD [], x ≠ 0
   hours : a.byhour = none ∨ ∃ l, a.byhour = some l ∧ l ≠ []
@@ -544,9 +545,10 @@ theorem mbhme_init (ma : MinutelyBHMEArgs a) (h : construct a = .ok r) (hlo : 15
   · refine ⟨rebuild_facts r _ _ info hre, hnw, hv.1.2.2, ⟨hv.2.1, hv.2.2.1⟩, ⟨hv.2.2.2.1, hv.2.2.2.2.1⟩, ?_, rfl⟩
     unfold curOrd Spec.RRule.startOrd DT.ordinal; simp
 
-/-- **`iter_eq_spec_minutely_bhm_easter`**: `iter_eq_spec_minutely_bhm` with BYEASTER instead of "no BYEASTER" — offsets −80..250 (the complement of
-    D-C01d), no BYWEEKNO, a start in a year ≥ 1583 and every visited day not after 31 December 4099 (where C19 ties
-    `easter.easter` to Meeus/Jones/Butcher); everything else as there, `n ≤ m ≤ 2880·n`. -/
+/-- **`iter_eq_spec_minutely_bhm_easter`**: `iter_eq_spec_minutely_bhm` with BYEASTER instead of "no BYEASTER" —
+    offsets −80..250 (the complement of D-C01d), no BYWEEKNO, a start in a year ≥ 1583 and every visited day not
+    after 31 December 4099 (where C19 ties `easter.easter` to Meeus/Jones/Butcher); everything else as there, `n ≤
+    m ≤ 2880·n`. -/
 theorem iter_eq_spec_minutely_bhm_easter (ma : MinutelyBHMEArgs a) (h : construct a = .ok r) (n : Nat)
     (hlo : 1583 ≤ a.dtstart.y)
     (hle : (Spec.RRule.startOrd a * 24 + a.dtstart.hh) * 60 + a.dtstart.mm + (2880 * n + 1440) * a.interval + 1439 <
@@ -583,5 +585,14 @@ theorem iter_eq_spec_minutely_bhm_easter (ma : MinutelyBHMEArgs a) (h : construc
   unfold DT.Valid at hv
   obtain ⟨st0, hinit, hg0, hc0⟩ := mbhme_init ma h hlo (by omega)
   exact iter_refines_skip sim (by omega) st0 hinit hg0 hc0 n (by omega)
+
+-- non-vacuity: the hypotheses are satisfiable
+example : MinutelyBHMEArgs { freq := 5, dtstart := ⟨2024, 1, 1, 9, 0, 0, 0⟩, interval := 25, byeaster := some [0, 1],
+                             byhour := some [9, 17], byminute := some [0, 30] } :=
+  { freq := rfl, interval := (by decide), valid := (by decide), byweekno := rfl,
+    easter := ⟨[0, 1], rfl, by simp, by intro o ho; simp at ho; omega⟩,
+    monthday_nz := (by intro x hx; simp at hx), hours := Or.inr ⟨[9, 17], rfl, by decide⟩,
+    minutes := ⟨[0, 30], rfl⟩, seconds_ok := (by intro x hx; simp at hx),
+    reach := List.any_eq_true.mpr ⟨0, List.mem_range.mpr (by omega), by decide⟩ }
 
 end RRule
